@@ -360,7 +360,12 @@ C07_Fail(c, r, v, g) ==
                      /\ i \in DOMAIN r.after.smap /\ r.after.smap[i][1] = 1
                      /\ r.after.smap[i][2] = Q * c.smap[i][2] /\ r.after.smap[i][3] = Q * c.smap[i][3]
                      /\ r.after.smap[i][4] = (IF Len(c.smap[i]) >= 5 THEN Q * c.smap[i][4] ELSE 0)
-                     /\ r.after.smap[i][5] = (IF Len(c.smap[i]) >= 5 THEN Q * c.smap[i][5] ELSE 0), "InputUntouched")
+                     /\ r.after.smap[i][5] = (IF Len(c.smap[i]) >= 5 THEN Q * c.smap[i][5] ELSE 0)
+               \* two WithNodeSize options in one call (c.dup = 1): the map given to the FIRST one (every odd node, 3 x 5) is the
+               \* caller's data just as well
+               /\ ("smap0" \in DOMAIN r.after =>
+                     /\ r.after.nsmap0 = Cardinality({i \in 1..c.n : i % 2 = 1})
+                     /\ \A i \in 1..c.n : r.after.smap0[i] = IF i % 2 = 1 THEN <<1, Q * 3, Q * 5>> ELSE <<0, 0, 0>>), "InputUntouched")
 C07_NonTrivial(c, r, v, g) == g # <<>> /\ c.n >= 3
 
 (* C08 -- node identifiers are opaque *)
